@@ -597,7 +597,7 @@ def inventory(index, rep, rule, resets, runs) -> None:
                 cx.agent and cx.agent[0] and cx.agent[0][0] == 'cell' and \
                 cx.lt(cx.agent[0][2], wall[0].region[3])
             exit_ = writes_of(cx, 'Exit')
-            ok2 = bool(exit_) and exit_[0].region[0] == 'cell' and bool(wall) and \
+            ok2 = bool(exit_) and bool(exit_[0].region) and exit_[0].region[0] == 'cell' and bool(wall) and \
                 cx.lt(wall[0].region[4], exit_[0].region[2])
             rep.check(bool(ok), rule, RESET, 'keydoor', keys[0].line, keys[0].text,
                       'key and agent are not both strictly left of the dividing wall',
